@@ -273,7 +273,8 @@ def eval_one(ctx: Ctx, c: dict):
     ms, pt = c["max_size"], c["prefer_truncation"]
     line, w = render(m, ms, pt)
     if c["tsig"] is not None and m.tsig is not None:
-        c2 = dict(c, tsig=tsig_case(m.tsig))
+        made = tsig_case(m.tsig)
+        c2 = dict(c, tsig=dict(c["tsig"], mac=made["mac"], time=made["time"]))
     else:
         c2 = c
     ctx.corr(f"c03.render {ms} {int(pt)} {msg_tokens(c2)}", line, c)
